@@ -139,7 +139,72 @@ def solo(sc, tag):
                 s["ops"][n] = {"op": "noop"}
         elif op.get("inst") != tag:
             s["ops"][n] = {"op": "noop"}
+    for k_ in ("mode", "thread_of", "tplan", "tseed"):
+        s.pop(k_, None)
     return s
+
+
+def _run_threads(sc, plan, record):
+    """One thread per instance executes that instance's operations (definition of its class included);
+    the baton scheduler pre-empts at line granularity anywhere in the library."""
+    import gc
+    import warnings
+
+    from .. import run as runmod
+    from ..simrt import SIM
+    from ..vthreads import ThreadSim
+
+    r = runmod.Runner(sc)
+    with warnings.catch_warnings(record=True):
+        warnings.simplefilter("always")
+        try:
+            r.setup()
+            ts = ThreadSim(runmod.REPO, plan=plan)
+            ts.record = record
+            SIM.threads = ts
+            streams = {}
+            for n, op in enumerate(sc["ops"]):
+                streams.setdefault(sc["thread_of"][n], []).append((n, op))
+
+            def mk(items):
+                def body():
+                    SIM.tl.own_epoch = True
+                    for n, op in items:
+                        r.step_sync(n, op)
+                return body
+
+            for name in sorted(streams):
+                ts.spawn(name, mk(streams[name]))
+            ts.run()
+            SIM.threads = None
+            if ts.errors:
+                nm, e = sorted(ts.errors.items())[0]
+                raise runmod.HarnessError(f"thread {nm} failed: {type(e).__name__}: {e}")
+            trace = list(SIM.trace)
+            stats = dict(SIM.stats)
+            stats["switches"] = len(ts.switches)
+            stats["line_steps"] = ts.step
+        finally:
+            SIM.threads = None
+            gc.collect()
+            r.teardown()
+    return {"trace": trace, "outs": r.outs, "stats": stats, "digest": runmod.digest(trace), "never_awaited": [],
+            "per_thread": ts.per_thread if record else None, "switch_sites": dict(ts.sites),
+            "switches": list(ts.switches)}
+
+
+def execute_threads(sc):
+    import random
+
+    from .. import run as runmod
+    from ..vthreads import draw_plan
+
+    if sc.get("tplan") is None:
+        dry = runmod.isolated(_run_threads, sc, [], True)
+        rnd = random.Random(sc["tseed"])
+        names = sorted(dry["per_thread"])
+        sc["tplan"] = draw_plan(rnd, dry["per_thread"], names, sc.get("nswitch", 3), set(), ())
+    return runmod.isolated(_run_threads, sc, sc["tplan"], False)
 
 
 @register
@@ -150,7 +215,8 @@ class C16(Campaign):
                  "event histories of 2-4 co-resident programs vs. the same instance run solo; reference interpreter")
     quick_runs = 2000
     thorough_runs = 30000
-    fault_kinds = ["neighbour-definition@op (unrelated class)", "neighbour-definition@op (unrelated class whose state id "
+    fault_kinds = ["preempt@line anywhere in the library (thread variant: one thread per instance)",
+                   "neighbour-definition@op (unrelated class)", "neighbour-definition@op (unrelated class whose state id "
                    "equals a callback name of the victim class)", "neighbour-definition@op (look-alike class: same class / "
                    "method / variable names)", "neighbour-definition@op (subclass adding transitions from inherited states)",
                    "second instance of the same class interleaved", "neighbour driven between two events"]
@@ -237,12 +303,44 @@ class C16(Campaign):
             for c, v in g2.items():
                 meta = p["cbs"][c.split("/", 1)[1]]
                 gv[meta.get("full") or c] = v
-        return {"profile": "C16", "programs": real, "beh": beh, "gv": gv, "ops": ops, "driver": "sync",
-                "perm_seed": rnd.randrange(1 << 30), "kinds": kinds, "insts": insts, "observe_more": True}
+        sc = {"profile": "C16", "programs": real, "beh": beh, "gv": gv, "ops": ops, "driver": "sync",
+              "perm_seed": rnd.randrange(1 << 30), "kinds": kinds, "insts": insts, "observe_more": True}
+        all_sync = not any(m.get("async") for p_ in real for m in p_["cbs"].values())
+        has_sub = any(p_.get("base_module") for p_ in real)
+        if all_sync and not has_sub and rnd.random() < 0.35:
+            # thread variant: every instance is owned by one thread (its class is defined by that thread
+            # too); process-wide caches and class-level objects are the only contact surface
+            owner = {}
+            thread_of = []
+            for op in ops:
+                if op["op"] == "define":
+                    tag = next(o["inst"] for o in ops if o["op"] == "new" and o["prog"] == op["prog"])
+                else:
+                    tag = op["inst"]
+                # instances of the same class share the defining thread's class but run on their own thread
+                thread_of.append("T" + tag)
+                owner[tag] = "T" + tag
+            # a definition must precede the instantiations that use it, also across threads: keep
+            # `define` ops on the main thread by loading those programs up-front instead
+            for p_ in real:
+                p_.pop("deferred", None)
+            sc["ops"] = [o if o["op"] != "define" else {"op": "noop"} for o in ops]
+            sc["thread_of"] = thread_of
+            sc["mode"] = "threads"
+            sc["tseed"] = rnd.randrange(1 << 30)
+            sc["nswitch"] = rnd.choice([2, 3, 4, 6, 8])
+            sc["tplan"] = None
+        return sc
 
     def evaluate(self, sc):
-        res = self.execute(sc)
+        if sc.get("mode") == "threads":
+            res = execute_threads(sc)
+        else:
+            res = self.execute(sc)
         out = {"violations": [], "unarmed": [], "mstats": {}, "res": res, "evals": 1, "c16": {}}
+        if sc.get("mode") == "threads":
+            out["c16"]["probe.thread_variant"] = 1
+            out["c16"]["fault.preemptions"] = res["stats"].get("switches", 0)
         for tag in sc["insts"]:
             s = solo(sc, tag)
             sres = self.execute(s)
